@@ -352,7 +352,11 @@ impl ThreadAllocInfo {
         self.current_count += 1;
         self.max_count = self.max_count.max(self.current_count);
 
-        self.current_size += size as ThreadAllocCountSigned;
+        // Byte figures wrap instead of overflowing: this runs inside the global
+        // allocator, which must never panic, and a request that the wrapped
+        // allocator refuses can be as large as `isize::MAX`.
+        self.current_size =
+            self.current_size.wrapping_add(size as ThreadAllocCountSigned);
         self.max_size = self.max_size.max(self.current_size);
     }
 
@@ -362,7 +366,8 @@ impl ThreadAllocInfo {
         self.tally_op(AllocOp::Dealloc, size);
 
         self.current_count -= 1;
-        self.current_size -= size as ThreadAllocCountSigned;
+        self.current_size =
+            self.current_size.wrapping_sub(size as ThreadAllocCountSigned);
     }
 
     /// Tallies the total count and size of the reallocation operation.
@@ -375,7 +380,8 @@ impl ThreadAllocInfo {
         self.tally_op(AllocOp::realloc(is_shrink), abs_diff);
 
         // NOTE: Realloc does not change allocation count.
-        self.current_size += diff as ThreadAllocCountSigned;
+        self.current_size =
+            self.current_size.wrapping_add(diff as ThreadAllocCountSigned);
         self.max_size = self.max_size.max(self.current_size);
     }
 
@@ -384,7 +390,7 @@ impl ThreadAllocInfo {
     fn tally_op(&mut self, op: AllocOp, size: usize) {
         let tally = self.tallies.get_mut(op);
         tally.count += 1;
-        tally.size += size as ThreadAllocCount;
+        tally.size = tally.size.wrapping_add(size as ThreadAllocCount);
     }
 }
 
